@@ -319,6 +319,12 @@ def ht_monitor(case, res):
     for (f, l, pw), r in zip(case["steps"], res):
         text = H.decode_file(f["data"])
         stamp = (len(f["data"] or b""), f["mtime"])
+        if f.get("unreadable") and text is not None:
+            text = ""              # cannot be opened: it has no entries as far as anybody may know
+            if r[0] == "user" and (not cfg["cache"] or stamp != seen_stamp):
+                return ("login(%r, %r) authenticated as %r while the htpasswd file cannot be opened (%s)%s" % (
+                    l, pw, r[1], f["unreadable"], "" if not cfg["cache"] else " and its size/mtime changed"),
+                    "htpasswd-unreadable-file-authenticates")
         if cfg["cache"]:
             if stamp != seen_stamp and text not in (None, False):
                 seen_stamp, seen_text = stamp, text
@@ -363,13 +369,13 @@ def ht_monitor(case, res):
 
 def _json_ht(case):
     def jf(f):
-        return dict(data=None if f["data"] is None else f["data"].decode("latin-1"), mtime=f["mtime"])
+        return dict(data=None if f["data"] is None else f["data"].decode("latin-1"), mtime=f["mtime"], unreadable=f.get("unreadable"))
     return dict(cfg=case["cfg"], file0=jf(case["file0"]), steps=[[jf(f), l, pw] for f, l, pw in case["steps"]])
 
 
 def _unjson_ht(j):
     def uf(f):
-        return dict(data=None if f["data"] is None else f["data"].encode("latin-1"), mtime=f["mtime"])
+        return dict(data=None if f["data"] is None else f["data"].encode("latin-1"), mtime=f["mtime"], unreadable=f.get("unreadable"))
     return dict(cfg=j["cfg"], file0=uf(j["file0"]), steps=[(uf(f), l, pw) for f, l, pw in j["steps"]])
 
 
@@ -380,6 +386,15 @@ def corpus(pool):
     f1 = dict(data=("bob:plainpw\nalice:%s\n" % h).encode(), mtime=1001)
     f2 = dict(data=b"carol:$2y$abc\n", mtime=1000)
     out = []
+    # file fault after a content change: alice was removed, bob's password changed, then the file cannot be opened
+    g0 = dict(data=b"alice:apw\nbob:old\n", mtime=2000)
+    g1 = dict(data=b"bob:new\n", mtime=2001)
+    for cache in (False, True):
+        for kind in ("EACCES", "EIO"):
+            g2 = dict(data=b"bob:new\n", mtime=2002, unreadable=kind)
+            out.append(dict(cfg=dict(enc="plain", cache=cache, lc=False, uc=False, sd=False, module=True), file0=g0,
+                            steps=[(g0, "alice", "apw"), (g1, "bob", "new"), (g2, "alice", "apw"), (g2, "bob", "old"), (g2, "bob", "new"),
+                                   (g1, "bob", "new"), (dict(g1, mtime=2003), "bob", "new")]))
     for cache in (False, True):
         base = dict(enc="autodetect", cache=cache, lc=False, uc=False, sd=False, module=True)
         out.append(dict(cfg=base, file0=f0, steps=[(f0, "bob", "plainpw"), (f1, "alice", "pw"), (f1, "alice", "nope"), (f1, "bob", "plainpw")]))
@@ -409,6 +424,9 @@ def htpasswd_suite(ctx):
             else:
                 for r in res:
                     ctx.count("ht:result:" + r[0])
+                for (f_, _, _), r in zip(case["steps"], res):
+                    if f_.get("unreadable"):
+                        ctx.count("ht:attempt-with-unreadable-file:" + r[0])
                     if r[0] == "user":
                         ctx.count("ht:success:%s:%s" % (cfg["enc"], "cache" if cfg["cache"] else "nocache"))
             v = ht_monitor(case, res)
@@ -518,7 +536,7 @@ def live_monitor(ctx):
                 for _ in range(ctx.n(40, 400)):
                     env = {}
                     if rng.random() < 0.5:
-                        env[key] = rng.choice(["alice", "bob", "", "a/b"])
+                        env[key] = rng.choice(["alice", "bob", "", "a/b", "mallory,alice", " alice ", "a,,b", ",", "alice, bob"])
                     for k in rng.sample([x for x in X.IDENTITY_KEYS if x != key], rng.randint(1, 3)):
                         env[k] = rng.choice(["admin", "root"])
                     want = env.get(key, "")
